@@ -242,6 +242,19 @@ Definition item_names (it : item) : list N :=
   end.
 Definition module_names (m : modsum) : list N := flat_map item_names (m_items m).
 
+(* a declaration reached through nested namespaces: [a; b; c] = `c` declared in namespace `b` of
+   namespace `a` (recursion on the path) *)
+Fixpoint declares_path (p : list N) (its : list item) : bool :=
+  match p with
+  | [] => false
+  | [n] => mem n (flat_map item_names its)
+  | n :: rest =>
+      existsb (fun it => match it with
+                         | INamespace _ m _ sub => N.eqb m n && declares_path rest sub
+                         | _ => false
+                         end) its
+  end.
+
 Record c11_obs := {
   o_entry : bool;             (* the module is an export target of its package *)
   o_orig : modsum;
@@ -249,7 +262,8 @@ Record c11_obs := {
   o_orig_exports : list N;    (* resolved export names of the original (real symbol API) *)
   o_emit_exports : list N;    (* resolved export names of the emitted module (same API, second graph) *)
   o_exports_known : bool;     (* both sets could be computed *)
-  o_must_drop : list N        (* generator intent: declared names outside the public API *)
+  o_must_drop : list N;       (* generator intent: declared names outside the public API *)
+  o_must_drop_paths : list (list N)   (* ... and nested ones: namespace path ending in the declared name *)
 }.
 
 (* THE PROPERTY on one (original, emitted) module pair *)
@@ -258,7 +272,8 @@ Definition ApiPreserved (x : c11_obs) : Prop :=
      (forall n, In n (o_emit_exports x) -> In n (o_orig_exports x)) /\
      (o_entry x = true -> forall n, In n (o_orig_exports x) -> In n (o_emit_exports x))) /\
   ItemsPreserved (m_items (o_orig x)) (m_items (o_emit x)) /\
-  (forall n, In n (o_must_drop x) -> ~ In n (module_names (o_emit x))).
+  (forall n, In n (o_must_drop x) -> ~ In n (module_names (o_emit x))) /\
+  (forall p, In p (o_must_drop_paths x) -> declares_path p (m_items (o_emit x)) = false).
 
 (* ================================================================ decision procedure *)
 
@@ -380,7 +395,9 @@ Definition c11_subsetb (x : c11_obs) : bool :=
 Definition c11_entryb (x : c11_obs) : bool :=
   negb (o_exports_known x) || negb (o_entry x) || subsetb (o_orig_exports x) (o_emit_exports x).
 Definition c11_itemsb (x : c11_obs) : bool := itemspreservedb (m_items (o_orig x)) (m_items (o_emit x)).
-Definition c11_dropb (x : c11_obs) : bool := disjointb (o_must_drop x) (module_names (o_emit x)).
+Definition c11_dropb (x : c11_obs) : bool :=
+  disjointb (o_must_drop x) (module_names (o_emit x)) &&
+  forallb (fun p => negb (declares_path p (m_items (o_emit x)))) (o_must_drop_paths x).
 
 Definition api_preservedb (x : c11_obs) : bool :=
   c11_subsetb x && c11_entryb x && c11_itemsb x && c11_dropb x.
@@ -426,7 +443,8 @@ Definition relax_obs (x : c11_obs) : c11_obs :=
   {| o_entry := o_entry x;
      o_orig := {| m_ambient := m_ambient (o_orig x); m_items := map relax_item (m_items (o_orig x)) |};
      o_emit := o_emit x; o_orig_exports := o_orig_exports x; o_emit_exports := o_emit_exports x;
-     o_exports_known := o_exports_known x; o_must_drop := o_must_drop x |}.
+     o_exports_known := o_exports_known x; o_must_drop := o_must_drop x;
+     o_must_drop_paths := o_must_drop_paths x |}.
 
 (* class 1101: the pair violates the property, and does not once those annotations are ignored *)
 Definition c11_classes (x : c11_obs) : list N :=
@@ -436,11 +454,13 @@ Definition c11_classes (x : c11_obs) : list N :=
 
 Definition dec_c11_obs (s : sexp) : option c11_obs :=
   match s with
-  | L [en; o; e; oe; ee; kn; md] =>
+  | L (en :: o :: e :: oe :: ee :: kn :: md :: rest) =>
       do en' <- as_bool en; do o' <- dec_module o; do e' <- dec_module e;
       do oe' <- as_atoms oe; do ee' <- as_atoms ee; do kn' <- as_bool kn; do md' <- as_atoms md;
+      (* an eighth field: nested names (absent in cases written before they were modelled) *)
+      do mp' <- match rest with [] => Some [] | [mp] => as_list_of as_atoms mp | _ => None end;
       Some {| o_entry := en'; o_orig := o'; o_emit := e'; o_orig_exports := oe'; o_emit_exports := ee';
-              o_exports_known := kn'; o_must_drop := md' |}
+              o_exports_known := kn'; o_must_drop := md'; o_must_drop_paths := mp' |}
   | _ => None
   end.
 
